@@ -1,30 +1,32 @@
 (* C18 - property theorems only (LinearFilter of nipy/algorithms/kernel_smooth.py,
-   per axis; conversions of kernel_smooth.py / fwhm.py over the reals).
+   per axis and on the 3-D buffer; conversions of kernel_smooth.py / fwhm.py
+   over the reals).  The code as it is after b27b842 / cb9e1b1 / 8cb3db7.
    n = grid size, k = cropped kernel size, L = buflen n k = FFT buffer size,
-   x = data, kap = cropped kernel, all for one axis; no bound on any of them. *)
+   w = _kcenter (window start), x = data, kap = cropped kernel; no bound on any of them. *)
 From Coq Require Import ZArith List Bool Lia QArith Qminmax Qabs Reals.
 From NV.Generated Require Import KernelSmooth.
-From NV.C18 Require Import Model ModelR Proofs1 Proofs2 Proofs3 Proofs4 ProofsR Source Fix.
+From NV.C18 Require Import Model ModelR Proofs1 Proofs2 Proofs3 Proofs4 ProofsR Source.
 Import ListNotations.
 Close Scope Q_scope.
 Close Scope R_scope.
 Open Scope Z_scope.
 
 (* (0) Tie to the source: the index formulas and constants translated from
-   kernel_smooth.py on this run (NV.Generated.KernelSmooth: vox_center,
-   self.shape, the output slicer, the cut, the crop tolerance, the fwhm guard,
-   the buffer origins, scale-then-location, the conversion constants) are the
-   ones of the model, for every n and k. *)
+   kernel_smooth.py / fwhm.py on this run (NV.Generated.KernelSmooth:
+   vox_center, self.shape, the output slicer over _kcenter, the cut, the crop
+   tolerance, the unconditional division by fwhm2sigma(fwhm), the buffer
+   origins, scale-then-location, the conversion constants, the two Resels
+   conversions) are the ones of the model, for every n, k, w. *)
 Theorem source_index_formulas_are_model :
-  forall n k, src_centre n = centre n /\ src_buflen n k = buflen n k /\
-              src_win_start n k = win_start k /\ src_win_stop n k = win_stop n k.
+  forall n k w, src_centre n = centre n /\ src_buflen n k = buflen n k /\
+                src_win_start n k w = win_start w /\ src_win_stop n k w = win_stop n w.
 Proof.
-  intros n k. split; [apply src_centre_ok|split; [apply src_buflen_ok|apply src_window_ok]].
+  intros n k w. split; [apply src_centre_ok|split; [apply src_buflen_ok|apply src_window_ok]].
 Qed.
 Print Assumptions source_index_formulas_are_model.
 
 Theorem source_constants_are_model :
-  src_cut = cut /\ src_tol = tol /\ src_half = 2%Q /\ src_fwhm_guard = 1%Q /\
+  src_cut = cut /\ src_tol = tol /\ src_half = 2%Q /\ src_sigma_always_applied = true /\
   src_kernel_origin = 0 /\ src_data_origin = 0.
 Proof. exact src_constants_ok. Qed.
 Print Assumptions source_constants_are_model.
@@ -36,9 +38,17 @@ Theorem source_conversions_are_model :
 Proof. exact src_conversions_ok. Qed.
 Print Assumptions source_conversions_are_model.
 
+Theorem source_resel_conversions_are_model :
+  forall D root wedge v,
+  src_resel2fwhm pos_recipr root D wedge v = resel2fwhm root wedge v /\
+  src_fwhm2resel pos_recipr root D wedge v = fwhm2resel D wedge v.
+Proof. exact src_resel_ok. Qed.
+Print Assumptions source_resel_conversions_are_model.
+
 (* (1) The FFT buffer: even (so irfftn returns L samples, not L-1), at least
-   n + k + 2 long, and the returned window [k//2, n + k//2) lies inside it and
-   has the input's length. *)
+   n + k + 2 long; the returned window [w, n + w), for ANY start inside the
+   kernel (0 <= w < k, in particular w = _kcenter), lies inside it and has
+   the input's length. *)
 Theorem buffer_shape_even_and_large :
   forall n k, (buflen n k) mod 2 = 0 /\ n + k + 2 <= buflen n k /\
               2 * ((buflen n k / 2 + 1) - 1) = buflen n k.
@@ -46,19 +56,39 @@ Proof. intros n k. split; [apply buflen_even|split; [apply buflen_ge|apply irfft
 Print Assumptions buffer_shape_even_and_large.
 
 Theorem output_window_has_input_shape :
-  forall n k p, 1 <= n -> 1 <= k -> 0 <= p < n ->
-  0 <= p + win_start k < buflen n k /\ win_stop n k <= buflen n k /\ win_stop n k - win_start k = n.
+  forall n k w p, 1 <= n -> 0 <= w < k -> 0 <= p < n ->
+  0 <= p + win_start w < buflen n k /\ win_stop n w <= buflen n k /\ win_stop n w - win_start w = n.
 Proof. exact window_in_buffer. Qed.
 Print Assumptions output_window_has_input_shape.
 
-(* (2) No wrap-around: on EVERY index of the buffer (in particular on every
-   index the output window reads) the circular convolution computed through
-   the FFT equals the direct linear convolution of data and kernel. *)
+(* _kcenter (first argmax of the cropped kernel) is such a start *)
+Theorem kcenter_inside_kernel :
+  forall k kap, 1 <= k -> 0 <= kcenter k kap < k /\ forall j, 0 <= j < k -> (kap j <= kap (kcenter k kap))%Q.
+Proof. intros k kap Hk. split; [apply kcenter_range; exact Hk|intros j Hj; apply kcenter_max; assumption]. Qed.
+Print Assumptions kcenter_inside_kernel.
+
+(* (2) No wrap-around: on EVERY index of the buffer - hence on every index the
+   NEW window reads: p + w < n + k - 1 < L - the circular convolution computed
+   through the FFT equals the direct linear convolution of data and kernel. *)
 Theorem circular_equals_linear_in_window :
   forall n k x kap t, 1 <= n -> 1 <= k -> 0 <= t < buflen n k ->
   (circ (buflen n k) (pad n x) (pad k kap) t == lin n k x kap t)%Q.
 Proof. intros n k x kap t Hn Hk Ht. apply circ_eq_lin; try assumption. apply buflen_nowrap. Qed.
 Print Assumptions circular_equals_linear_in_window.
+
+Theorem circular_equals_linear_on_kcenter_window :
+  forall n k x kap p, 1 <= n -> 1 <= k -> 0 <= p < n ->
+  0 <= p + win_start (kcenter k kap) < buflen n k /\
+  (circ (buflen n k) (pad n x) (pad k kap) (p + win_start (kcenter k kap)) ==
+   lin n k x kap (p + kcenter k kap))%Q.
+Proof.
+  intros n k x kap p Hn Hk Hp.
+  pose proof (kcenter_range k kap Hk) as R.
+  pose proof (window_in_buffer n k (kcenter k kap) p Hn R Hp) as (W & _).
+  split; [exact W|]. unfold win_start in *.
+  apply circ_eq_lin; try assumption. apply buflen_nowrap.
+Qed.
+Print Assumptions circular_equals_linear_on_kcenter_window.
 
 (* ... and it is the buffer-length formula that gives it: any L >= n + k - 1 does *)
 Theorem circular_equals_linear_general :
@@ -80,17 +110,17 @@ Qed.
 Print Assumptions circular_equals_linear_3d.
 
 Theorem smooth3_is_direct_convolution :
-  forall n1 n2 n3 k1 k2 k3 x kap scale loc p1 p2 p3,
-  1 <= n1 -> 1 <= n2 -> 1 <= n3 -> 1 <= k1 -> 1 <= k2 -> 1 <= k3 ->
+  forall n1 n2 n3 k1 k2 k3 w1 w2 w3 x kap scale loc p1 p2 p3,
+  1 <= n1 -> 1 <= n2 -> 1 <= n3 -> 0 <= w1 < k1 -> 0 <= w2 < k2 -> 0 <= w3 < k3 ->
   0 <= p1 < n1 -> 0 <= p2 < n2 -> 0 <= p3 < n3 ->
-  (smooth3 n1 n2 n3 k1 k2 k3 x kap scale loc p1 p2 p3 ==
-   scale * (lin3 n1 n2 n3 k1 k2 k3 x kap (p1 + k1 / 2) (p2 + k2 / 2) (p3 + k3 / 2) / l1sum3 k1 k2 k3 kap) + loc)%Q.
+  (smooth3 n1 n2 n3 k1 k2 k3 w1 w2 w3 x kap scale loc p1 p2 p3 ==
+   scale * (lin3 n1 n2 n3 k1 k2 k3 x kap (p1 + w1) (p2 + w2) (p3 + w3) / l1sum3 k1 k2 k3 kap) + loc)%Q.
 Proof. exact smooth3_direct. Qed.
 Print Assumptions smooth3_is_direct_convolution.
 
 Theorem smooth_is_direct_convolution :
   forall n k x kap scale loc p, 1 <= n -> 1 <= k -> 0 <= p < n ->
-  (smooth1 n k x kap scale loc p == scale * (lin n k x kap (p + k / 2) / l1sum k kap) + loc)%Q.
+  (smooth1 n k x kap scale loc p == scale * (lin n k x kap (p + kcenter k kap) / l1sum k kap) + loc)%Q.
 Proof. exact smooth1_direct. Qed.
 Print Assumptions smooth_is_direct_convolution.
 
@@ -108,33 +138,110 @@ Theorem scale_location_affine :
 Proof. exact smooth1_scale_loc. Qed.
 Print Assumptions scale_location_affine.
 
-(* (4) Impulse response.  For ANY kernel profile g >= 0 with a strict maximum
-   at offset 0, cropped so that its centre sits at index c_k of k entries: the
-   response to a unit impulse at p0 is the profile translated to
-   p0 + (c_k - k//2), and that voxel is its strict maximum. *)
-Theorem impulse_response_centre :
+(* shift equivariance for ARBITRARY data: y is x moved by d >= 0 voxels (read
+   backwards: by -d), both inside the grid: the smoothed y is the smoothed x
+   moved by d, on every output voxel where both are defined. *)
+Theorem smooth_shift_equivariant :
+  forall n k kap x y d p scale loc,
+  1 <= n -> 1 <= k -> 0 <= d -> 0 <= p -> p + d < n ->
+  (forall s, ~ (0 <= s < n) -> (x s == 0)%Q) ->
+  (forall s, ~ (0 <= s < n) -> (y s == 0)%Q) ->
+  (forall s, (y s == x (s - d)%Z)%Q) ->
+  (smooth1 n k y kap scale loc (p + d) == smooth1 n k x kap scale loc p)%Q.
+Proof. exact smooth1_shift. Qed.
+Print Assumptions smooth_shift_equivariant.
+
+(* (4) CENTRING - the main theorem.  For ANY kernel profile g >= 0 with a strict
+   maximum at offset 0, cropped in ANY way that keeps its centre (index c_k of
+   k entries, 0 <= c_k < k): _kcenter = c_k, and the response to a unit
+   impulse at p0 has its strict maximum AT p0 - every n, k, c_k, p0: odd and
+   even grids, kernels cut by the border or not. *)
+Theorem kcenter_is_centre_index :
+  forall (g : Z -> Q), (forall d, (0 <= g d)%Q) -> (forall d, d <> 0 -> (g d < g 0%Z)%Q) ->
+  forall k ck, 0 <= ck < k -> kcenter k (kern_of g ck) = ck.
+Proof. exact kcenter_kern_of. Qed.
+Print Assumptions kcenter_is_centre_index.
+
+Theorem impulse_response_centred :
+  forall (g : Z -> Q), (forall d, (0 <= g d)%Q) -> (forall d, d <> 0 -> (g d < g 0%Z)%Q) ->
+  forall n k ck p0 p, 1 <= n -> 0 <= ck < k -> 0 <= p0 < n -> 0 <= p < n -> p <> p0 ->
+  (smooth1 n k (delta p0) (kern_of g ck) 1 0 p < smooth1 n k (delta p0) (kern_of g ck) 1 0 p0)%Q.
+Proof. exact impulse_centred. Qed.
+Print Assumptions impulse_response_centred.
+
+(* the response IS the profile centred on the impulse (no spatial offset), zero beyond the kernel *)
+Theorem impulse_response_value :
   forall (g : Z -> Q), (forall d, (0 <= g d)%Q) -> (forall d, d <> 0 -> (g d < g 0%Z)%Q) ->
   forall n k ck p0 p, 1 <= n -> 0 <= ck < k -> 0 <= p0 < n -> 0 <= p < n ->
-  0 <= p0 + (ck - k / 2) < n -> p <> p0 + (ck - k / 2) ->
-  (smooth1 n k (delta p0) (kern_of g ck) 1 0 p < smooth1 n k (delta p0) (kern_of g ck) 1 0 (p0 + (ck - k / 2)))%Q.
-Proof. exact impulse_peak. Qed.
-Print Assumptions impulse_response_centre.
-
-Theorem impulse_response_value :
-  forall (g : Z -> Q) n k ck p0 p, 1 <= n -> 0 <= ck < k -> 0 <= p0 < n -> 0 <= p < n ->
-  0 <= p + k / 2 - p0 < k ->
-  (smooth1 n k (delta p0) (kern_of g ck) 1 0 p == g (p - (p0 + (ck - k / 2)))%Z / l1sum k (kern_of g ck))%Q.
-Proof. exact impulse_value. Qed.
+  (0 <= p + ck - p0 < k ->
+   (smooth1 n k (delta p0) (kern_of g ck) 1 0 p == g (p - p0)%Z / l1sum k (kern_of g ck))%Q) /\
+  (~ (0 <= p + ck - p0 < k) -> (smooth1 n k (delta p0) (kern_of g ck) 1 0 p == 0)%Q).
+Proof.
+  intros g H1 H2 n k ck p0 p Hn Hck Hp0 Hp. split; intros H.
+  - apply impulse_value; assumption.
+  - apply impulse_zero; assumption.
+Qed.
 Print Assumptions impulse_response_value.
 
-(* (5) Centring.  The spatial offset is 0 iff the centre voxel sits at k//2 of
-   the cropped kernel ... *)
-Theorem centred_iff :
-  forall n mM, offset n mM = 0 <-> kcentre n mM = klen mM / 2.
-Proof. exact Proofs1.centred_iff. Qed.
-Print Assumptions centred_iff.
+(* what any other window start would do: the peak moves to p0 + (c_k - w)
+   (w = k // 2 was the code before b27b842) *)
+Theorem impulse_peak_for_any_window :
+  forall (g : Z -> Q), (forall d, (0 <= g d)%Q) -> (forall d, d <> 0 -> (g d < g 0%Z)%Q) ->
+  forall n k w ck p0 p, 1 <= n -> 0 <= w < k -> 0 <= ck < k -> 0 <= p0 < n -> 0 <= p < n ->
+  0 <= p0 + (ck - w) < n -> p <> p0 + (ck - w) ->
+  (smooth1_w n k w (delta p0) (kern_of g ck) 1 0 p < smooth1_w n k w (delta p0) (kern_of g ck) 1 0 (p0 + (ck - w)))%Q.
+Proof. exact impulse_peak_w. Qed.
+Print Assumptions impulse_peak_for_any_window.
 
-(* ... _crop returns the bounding box of the support (any non-empty projection P) ... *)
+(* 3-D, EVERY affine (diagonal, flipped, oblique): the kernel is any G >= 0 of
+   the voxel offset VECTOR with a strict maximum at 0, cropped by any box that
+   keeps the centre (c1,c2,c3); whatever maximal index np.argmax returns is
+   the centre, and the smoothed unit impulse at q has its strict maximum AT q. *)
+Theorem impulse_response_centred_3d :
+  forall (G : Z -> Z -> Z -> Q),
+  (forall d1 d2 d3, (0 <= G d1 d2 d3)%Q) ->
+  (forall d1 d2 d3, ~ (d1 = 0 /\ d2 = 0 /\ d3 = 0) -> (G d1 d2 d3 < G 0%Z 0%Z 0%Z)%Q) ->
+  forall n1 n2 n3 k1 k2 k3 c1 c2 c3 w1 w2 w3 q1 q2 q3 p1 p2 p3,
+  1 <= n1 -> 1 <= n2 -> 1 <= n3 ->
+  0 <= c1 < k1 -> 0 <= c2 < k2 -> 0 <= c3 < k3 ->
+  is_argmax3 k1 k2 k3 (kern3_of G c1 c2 c3) w1 w2 w3 ->
+  0 <= q1 < n1 -> 0 <= q2 < n2 -> 0 <= q3 < n3 ->
+  0 <= p1 < n1 -> 0 <= p2 < n2 -> 0 <= p3 < n3 ->
+  ~ (p1 = q1 /\ p2 = q2 /\ p3 = q3) ->
+  (w1 = c1 /\ w2 = c2 /\ w3 = c3) /\
+  (smooth3 n1 n2 n3 k1 k2 k3 w1 w2 w3 (delta3 q1 q2 q3) (kern3_of G c1 c2 c3) 1 0 p1 p2 p3 <
+   smooth3 n1 n2 n3 k1 k2 k3 w1 w2 w3 (delta3 q1 q2 q3) (kern3_of G c1 c2 c3) 1 0 q1 q2 q3)%Q.
+Proof.
+  intros G H1 H2 n1 n2 n3 k1 k2 k3 c1 c2 c3 w1 w2 w3 q1 q2 q3 p1 p2 p3 N1 N2 N3 C1 C2 C3 AM Q1 Q2 Q3 P1 P2 P3 Hne.
+  split.
+  - eapply (argmax3_is_centre G); eassumption.
+  - eapply (impulse3_centred G); eassumption.
+Qed.
+Print Assumptions impulse_response_centred_3d.
+
+(* the code's kernel for an affine with linear part A (rows) injective on the
+   lattice and per-coordinate sigmas, exp abstract: it IS such a G *)
+Theorem gaussian_kernel_any_affine_is_peaked :
+  forall (E : Q -> Q),
+  (forall u v, (u == v)%Q -> (E u == E v)%Q) ->
+  (forall u, (0 <= u <= cut)%Q -> (tol < E u)%Q) ->
+  (forall u, (0 < u <= cut)%Q -> (E u < E 0)%Q) ->
+  forall a11 a12 a13 a21 a22 a23 a31 a32 a33 s1 s2 s3 : Q,
+  ~ (s1 == 0)%Q -> ~ (s2 == 0)%Q -> ~ (s3 == 0)%Q ->
+  (forall d1 d2 d3, ~ (d1 = 0 /\ d2 = 0 /\ d3 = 0) ->
+    ~ (wrow a11 a12 a13 d1 d2 d3 == 0 /\ wrow a21 a22 a23 d1 d2 d3 == 0 /\ wrow a31 a32 a33 d1 d2 d3 == 0)%Q) ->
+  let G := gprofile3 E a11 a12 a13 a21 a22 a23 a31 a32 a33 s1 s2 s3 in
+  (forall d1 d2 d3, (0 <= G d1 d2 d3)%Q) /\
+  (forall d1 d2 d3, ~ (d1 = 0 /\ d2 = 0 /\ d3 = 0) -> (G d1 d2 d3 < G 0%Z 0%Z 0%Z)%Q).
+Proof.
+  intros E H1 H2 H3 a11 a12 a13 a21 a22 a23 a31 a32 a33 s1 s2 s3 S1 S2 S3 Inj G. split.
+  - intros d1 d2 d3. apply gprofile3_nonneg; assumption.
+  - intros d1 d2 d3 Hd. apply gprofile3_peak; assumption.
+Qed.
+Print Assumptions gaussian_kernel_any_affine_is_peaked.
+
+(* (5) Geometry of the crop.  _crop returns the bounding box of the support (any
+   non-empty projection P) ... *)
 Theorem crop_is_bounding_box :
   forall n P c, 0 <= c < n -> P c = true ->
   is_bbox n P (fst (crop_bounds n P)) (snd (crop_bounds n P)) /\
@@ -142,75 +249,47 @@ Theorem crop_is_bounding_box :
 Proof. exact crop_bounds_bbox. Qed.
 Print Assumptions crop_is_bounding_box.
 
-(* ... and for every support that depends on |offset| only (diagonal and
-   flipped affines, any fwhm) the offset is exactly: -1 when n is even and the
-   support reaches centre+1 (i.e. is cut by the grid border), else 0. *)
-Theorem centred_iff_symmetric_support :
+(* ... and for every support that depends on |offset| only (diagonal and flipped
+   affines, any fwhm) the centre sits at k//2 - 1 exactly when n is even and
+   the support reaches centre+1 (is cut by the grid border), else at k//2 -
+   which is why the window has to follow _kcenter and not k//2. *)
+Theorem cropped_centre_position_symmetric_support :
   forall n S, 1 <= n -> sym_mono S ->
-  offset n (crop_bounds n (fun i => S (i - centre n))) = (if Z.even n && S (centre n + 1) then -1 else 0) /\
-  (offset n (crop_bounds n (fun i => S (i - centre n))) = 0 <-> (Z.odd n = true \/ S (centre n + 1) = false)).
-Proof. intros n S Hn HS. split; [apply sym_offset|apply sym_centred_iff]; assumption. Qed.
-Print Assumptions centred_iff_symmetric_support.
+  half_gap n (crop_bounds n (fun i => S (i - centre n))) = (if Z.even n && S (centre n + 1) then -1 else 0) /\
+  (half_gap n (crop_bounds n (fun i => S (i - centre n))) = 0 <-> (Z.odd n = true \/ S (centre n + 1) = false)).
+Proof. intros n S Hn HS. split; [apply sym_half_gap|apply sym_centred_iff]; assumption. Qed.
+Print Assumptions cropped_centre_position_symmetric_support.
 
-(* the Gaussian cut of the code along a diagonal axis: kernel size, centre and offset *)
-Theorem centred_odd_or_uncropped :
+(* the Gaussian cut of the code along a diagonal axis: kernel size and centre *)
+Theorem diagonal_axis_kernel_geometry :
   forall n step sigma, 1 <= n -> ~ (sigma == 0)%Q ->
   let mM := bounds_diag n step sigma in
   0 <= kcentre n mM < klen mM /\ 1 <= klen mM <= n /\
-  offset n mM = if Z.even n && in_cut (half_normsq step sigma (centre n + 1)) then -1 else 0.
+  half_gap n mM = if Z.even n && in_cut (half_normsq step sigma (centre n + 1)) then -1 else 0.
 Proof. exact diag_geom_ok. Qed.
-Print Assumptions centred_odd_or_uncropped.
+Print Assumptions diagonal_axis_kernel_geometry.
 
-(* (6) The whole chain with exp abstract (E u = exp(-u): positive above the crop
-   tolerance on [0,15], below E 0 for u > 0): the smoothed unit impulse at p0
-   has its strict maximum at p0 + off, off as in (5). *)
-Theorem gaussian_impulse_peak :
+(* (6) The whole chain along a diagonal axis with exp abstract (E u = exp(-u):
+   positive above the crop tolerance on [0,15], below E 0 for u > 0): _kcenter
+   is the centre voxel's index in the crop and the smoothed unit impulse at p0
+   has its strict maximum at p0 - every n (the former counterexample n = 8,
+   sigma 17/20 included), step, sigma. *)
+Theorem gaussian_impulse_centred :
   forall (E : Q -> Q),
   (forall u v, (u == v)%Q -> (E u == E v)%Q) ->
   (forall u, (0 <= u <= cut)%Q -> (tol < E u)%Q) ->
   (forall u, (0 < u <= cut)%Q -> (E u < E 0)%Q) ->
   forall n step sigma p0 p, 1 <= n -> ~ (step == 0)%Q -> ~ (sigma == 0)%Q ->
-  0 <= p0 < n -> 0 <= p < n ->
-  let off := if Z.even n && in_cut (half_normsq step sigma (centre n + 1)) then -1 else 0 in
-  0 <= p0 + off < n -> p <> p0 + off ->
-  (response E n step sigma p0 p < response E n step sigma p0 (p0 + off))%Q.
-Proof. exact diag_impulse_peak. Qed.
-Print Assumptions gaussian_impulse_peak.
-
-(* REFUTED clause "centred on the impulse with no spatial offset": 8 voxels of
-   size 1, sigma = 17/20 (fwhm 2.0), impulse at voxel 4: the smoothed image is
-   larger at voxel 3 than at voxel 4, for every admissible exp. *)
-Theorem centred_even_cropped_refuted :
-  exists n step sigma p0, 0 <= p0 < n /\
-  forall (E : Q -> Q),
-  (forall u v, (u == v)%Q -> (E u == E v)%Q) ->
-  (forall u, (0 <= u <= cut)%Q -> (tol < E u)%Q) ->
-  (forall u, (0 < u <= cut)%Q -> (E u < E 0)%Q) ->
-  (response E n step sigma p0 p0 < response E n step sigma p0 (p0 - 1))%Q.
+  0 <= p0 < n -> 0 <= p < n -> p <> p0 ->
+  (let mM := bounds_diag n step sigma in
+   kcenter (klen mM) (kern_of (gprofile E step sigma) (kcentre n mM)) = kcentre n mM) /\
+  (response E n step sigma p0 p < response E n step sigma p0 p0)%Q.
 Proof.
-  exists 8, 1%Q, (17 # 20)%Q, 4. split; [lia|]. intros E H1 H2 H3.
-  pose proof (diag_impulse_peak E H1 H2 H3 8 1%Q (17 # 20)%Q 4 4) as P. cbv zeta in P.
-  assert (OFF : (if Z.even 8 && in_cut (half_normsq 1 (17 # 20) (centre 8 + 1)) then -1 else 0) = -1)
-    by (vm_compute; reflexivity).
-  rewrite OFF in P. change (4 - 1) with (4 + -1).
-  apply P; try lia; intros C; unfold Qeq in C; simpl in C; discriminate C.
+  intros E H1 H2 H3 n step sigma p0 p Hn Hst Hs Hp0 Hp Hne. split.
+  - apply (diag_kcenter E H1 H2 H3); assumption.
+  - apply (diag_impulse_centred E H1 H2 H3); assumption.
 Qed.
-Print Assumptions centred_even_cropped_refuted.
-
-(* the proposed repair (reports/C18-fix-1.diff): with the window started at c_k
-   (smooth1_w n k c_k; smooth1_w n k (k//2) is the code) the response to an
-   impulse at p0 has its strict maximum AT p0 - every n, k, c_k, profile. *)
-Theorem proposed_fix_is_centred :
-  forall (g : Z -> Q), (forall d, (0 <= g d)%Q) -> (forall d, d <> 0 -> (g d < g 0%Z)%Q) ->
-  forall n k ck p0 p, 1 <= n -> 0 <= ck < k -> 0 <= p0 < n -> 0 <= p < n -> p <> p0 ->
-  (smooth1_w n k ck (delta p0) (kern_of g ck) 1 0 p < smooth1_w n k ck (delta p0) (kern_of g ck) 1 0 p0)%Q /\
-  (forall x kap scale loc q, smooth1_w n k (win_start k) x kap scale loc q = smooth1 n k x kap scale loc q).
-Proof.
-  intros g H1 H2 n k ck p0 p Hn Hck Hp0 Hp Hne. split.
-  - apply fixed_window_centred; assumption.
-  - intros. reflexivity.
-Qed.
-Print Assumptions proposed_fix_is_centred.
+Print Assumptions gaussian_impulse_centred.
 
 (* (7) _crop's tolerance test keeps exactly the entries inside the cut. *)
 Theorem crop_keeps_cut_support :
@@ -231,17 +310,17 @@ Theorem kernel_in_world_units :
 Proof. exact half_normsq_world. Qed.
 Print Assumptions kernel_in_world_units.
 
-(* (9) Constants and total intensity away from the borders. *)
+(* (9) Constants and total intensity away from the borders (w = _kcenter). *)
 Theorem constant_preserved_interior :
   forall n k kap a p, 1 <= n -> 1 <= k -> 0 <= p < n -> ~ (l1sum k kap == 0)%Q ->
-  k - 1 - k / 2 <= p -> p + k / 2 <= n - 1 ->
+  k - 1 - kcenter k kap <= p -> p + kcenter k kap <= n - 1 ->
   (smooth1 n k (fun _ => a) kap 1 0 p == a)%Q.
 Proof. exact constant_preserved. Qed.
 Print Assumptions constant_preserved_interior.
 
 Theorem mass_preserved_interior :
   forall n k kap x, 1 <= n -> 1 <= k -> ~ (l1sum k kap == 0)%Q ->
-  (forall s, 0 <= s < n -> ~ (k / 2 <= s /\ s - k / 2 + k <= n) -> (x s == 0)%Q) ->
+  (forall s, 0 <= s < n -> ~ (kcenter k kap <= s /\ s - kcenter k kap + k <= n) -> (x s == 0)%Q) ->
   (zsum (fun p => smooth1 n k x kap 1 0 p) (Z.to_nat n) == zsum x (Z.to_nat n))%Q.
 Proof. exact mass_preserved. Qed.
 Print Assumptions mass_preserved_interior.
@@ -252,58 +331,40 @@ Theorem sigma_fwhm_inverse :
 Proof. exact ProofsR.sigma_fwhm_inverse. Qed.
 Print Assumptions sigma_fwhm_inverse.
 
-Theorem fwhm_is_full_width_at_half_max :
+(* the requested width is honoured for EVERY fwhm (1.0 included: the division by
+   fwhm2sigma(fwhm) is unconditional, source_constants_are_model): the Gaussian of
+   _normsq/__call__ is at half its maximum at world distance fwhm/2 *)
+Theorem requested_width_honoured :
   forall f : R, f <> 0%R -> gauss (fwhm2sigma f) (f / 2) = (/ 2)%R /\ gauss (fwhm2sigma f) 0 = 1%R.
 Proof. exact half_max. Qed.
-Print Assumptions fwhm_is_full_width_at_half_max.
+Print Assumptions requested_width_honoured.
 
-(* the guard `if self.fwhm != 1.0` of _normsq: every width but 1.0 is honoured;
-   REFUTED for fwhm = 1.0 exactly (kernel of sigma 1, i.e. FWHM 2.35) *)
-Theorem requested_width_honoured_unless_one :
-  forall f : R, f <> 0%R -> f <> 1%R -> gauss (eff_sigmaR f) (f / 2) = (/ 2)%R.
-Proof. exact eff_sigma_half_max. Qed.
-Print Assumptions requested_width_honoured_unless_one.
-
-Theorem fwhm_exactly_one_refuted : gauss (eff_sigmaR 1) (1 / 2) <> (/ 2)%R.
-Proof. exact eff_sigma_one_not_half_max. Qed.
-Print Assumptions fwhm_exactly_one_refuted.
-
-(* Resels.fwhm2resel o Resels.resel2fwhm, as written, is r / wedge^(2D) ... *)
-Theorem resel_fwhm_roundtrip :
+(* Resels.fwhm2resel and Resels.resel2fwhm are mutually inverse for EVERY wedge > 0
+   (root = np.power(., 1/D) with its two defining properties) *)
+Theorem resel_fwhm_mutually_inverse :
   forall (D : nat) (root : R -> R),
   (forall r, (0 < r)%R -> (0 < root r)%R /\ (root r ^ D)%R = r) ->
-  forall wedge r, (0 < wedge)%R -> (0 < r)%R ->
-  fwhm2resel D wedge (resel2fwhm root wedge r) = (r / (wedge ^ D * wedge ^ D))%R.
-Proof. exact resel_roundtrip. Qed.
-Print Assumptions resel_fwhm_roundtrip.
-
-(* ... the identity for unit voxels, and REFUTED otherwise (wedge 2, r 1 gives 1/4 with D = 1) *)
-Theorem resel_fwhm_inverse_unit_wedge :
-  forall (D : nat) (root : R -> R),
-  (forall r, (0 < r)%R -> (0 < root r)%R /\ (root r ^ D)%R = r) ->
-  forall r, (0 < r)%R -> fwhm2resel D 1 (resel2fwhm root 1 r) = r.
-Proof. exact resel_roundtrip_unit. Qed.
-Print Assumptions resel_fwhm_inverse_unit_wedge.
-
-Theorem resel_fwhm_inverse_refuted :
-  exists (D : nat) (root : R -> R) (wedge r : R),
-  (forall r, (0 < r)%R -> (0 < root r)%R /\ (root r ^ D)%R = r) /\ (0 < wedge)%R /\ (0 < r)%R /\
-  fwhm2resel D wedge (resel2fwhm root wedge r) <> r.
+  (forall x, (0 < x)%R -> root (x ^ D)%R = x) ->
+  forall wedge v, (0 < wedge)%R -> (0 < v)%R ->
+  fwhm2resel D wedge (resel2fwhm root wedge v) = v /\
+  resel2fwhm root wedge (fwhm2resel D wedge v) = v.
 Proof.
-  exists 1%nat, (fun r => r), 2%R, 1%R. split; [|split; [|split]].
-  - intros r Hr. split; [exact Hr|simpl; ring].
-  - Lra.lra.
-  - Lra.lra.
-  - rewrite resel_roundtrip_witness. Lra.lra.
+  intros D root H1 H2 wedge v Hw Hv. split.
+  - apply resel_roundtrip; assumption.
+  - apply fwhm_roundtrip; assumption.
 Qed.
-Print Assumptions resel_fwhm_inverse_refuted.
+Print Assumptions resel_fwhm_mutually_inverse.
 
-(* non-vacuity: concrete geometries [k; c_k; L; window start; stop; offset] *)
-Example geom_even_cropped : geom_diag 8 1 (17 # 20) = [8; 3; 18; 4; 12; -1].
+(* non-vacuity: concrete geometries [k; c_k; L; window start; stop; peak offset] *)
+Example geom_even_cropped : geom_diag 8 1 (17 # 20) = [8; 3; 18; 3; 11; 0].
 Proof. vm_compute. reflexivity. Qed.
 Example geom_odd_cropped : geom_diag 7 1 (17 # 20) = [7; 3; 16; 3; 10; 0].
 Proof. vm_compute. reflexivity. Qed.
 Example geom_even_uncropped : geom_diag 12 1 (17 # 20) = [9; 4; 24; 4; 16; 0].
 Proof. vm_compute. reflexivity. Qed.
 Example geom_anisotropic : geom_diag 9 (-3) (17 # 20) = [3; 1; 14; 1; 10; 0].
+Proof. vm_compute. reflexivity. Qed.
+(* the executable first-argmax on a concrete cropped kernel (centre at index 3 of 8) *)
+Example kcenter_example :
+  kcenter 8 (kern_of (fun d => (1 # Z.to_pos (1 + d * d))%Q) 3) = 3.
 Proof. vm_compute. reflexivity. Qed.
